@@ -768,63 +768,83 @@ func c07Bookkeeping(w *World, r *Report) {
 		})
 		r.Check(bad == "" && n > 0, "R07.7", "method:(*streams/dns/util.InQueue).appendPacket", w.Pos(fn.Pos()), "each released packet appends exactly its data and advances the expected number by one", bad)
 	}
-	// R07.7b: in Append, appendPacket is called only under SeqNo == NextSeqNo of the very packet
-	if fn := w.SSAFunc(methodOf(inQ, "Append")); fn != nil {
+	// R07.7b: appendPacket is called only under SeqNo == NextSeqNo of the very packet (in Append or its helpers)
+	if appendFn := w.SSAFunc(methodOf(inQ, "Append")); appendFn != nil {
 		ap := methodOf(inQ, "appendPacket")
-		bad := ""
-		n := 0
-		for _, c := range callsIn(fn) {
-			if sCallee(c) != ap {
-				continue
-			}
-			n++
-			arg := c.Common().Args[1]
-			guard := func(v ssa.Value) bool {
-				b, ok := v.(*ssa.BinOp)
-				if !ok || b.Op != token.EQL {
-					return false
-				}
-				for _, pr := range [][2]ssa.Value{{b.X, b.Y}, {b.Y, b.X}} {
-					fa := asFieldAddr(pr[0])
-					if fa != nil && fieldVarOf(fa) == seqF && isLoadOfField(pr[1], inNext) {
-						// the packet compared is the packet appended
-						for _, r1 := range provenance(fa.X, provOpts{}) {
-							for _, r2 := range provenance(arg, provOpts{}) {
-								if r1 == r2 {
-									return true
-								}
-							}
-						}
-						if fa.X == arg {
-							return true
-						}
-					}
-				}
-				return false
-			}
-			if !dominatedByCond(fn, c, guard, true) {
-				bad = fmt.Sprintf("%s: a packet is released to the reader without its number being compared equal to the expected one", w.Pos(c.Pos()))
-			}
-		}
-		r.Check(bad == "" && n >= 2, "R07.7", "method:(*streams/dns/util.InQueue).Append|in-order-release", w.Pos(fn.Pos()), fmt.Sprintf("%d release site(s), each under packet.SeqNo == NextSeqNo", n), bad+mapStr(n < 2, "expected the direct and the out-of-order release sites"))
-		// duplicate suppression: the first thing after the lock is the isAcked test that returns nil
 		isAcked := methodOf(inQ, "isAcked")
+		bad := ""
+		dupBad := ""
+		n := 0
+		// the already-seen test in Append
 		var ackCall ssa.Instruction
-		for _, c := range callsIn(fn) {
+		for _, c := range callsIn(appendFn) {
 			if sCallee(c) == isAcked {
 				ackCall = c
 			}
 		}
-		okDup := false
-		if ackCall != nil {
-			okDup = true
+		notSeen := func(in ssa.Instruction) bool {
+			return ackCall != nil && dominatedByCond(appendFn, in, func(v ssa.Value) bool { return v == ackCall.(ssa.Value) }, false)
+		}
+		for i := 0; i < inQ.NumMethods(); i++ {
+			fn := w.SSAFunc(inQ.Method(i))
+			if fn == nil {
+				continue
+			}
 			for _, c := range callsIn(fn) {
-				if sCallee(c) == ap && !dominatedByCond(fn, c, func(v ssa.Value) bool { return v == ackCall.(ssa.Value) }, false) {
-					okDup = false
+				if sCallee(c) != ap {
+					continue
+				}
+				n++
+				arg := c.Common().Args[1]
+				guard := func(v ssa.Value) bool {
+					b, ok := v.(*ssa.BinOp)
+					if !ok || b.Op != token.EQL {
+						return false
+					}
+					for _, pr := range [][2]ssa.Value{{b.X, b.Y}, {b.Y, b.X}} {
+						fa := asFieldAddr(pr[0])
+						if fa != nil && fieldVarOf(fa) == seqF && isLoadOfField(pr[1], inNext) {
+							if fa.X == arg {
+								return true
+							}
+							for _, r1 := range provenance(fa.X, provOpts{}) {
+								for _, r2 := range provenance(arg, provOpts{}) {
+									if r1 == r2 {
+										return true
+									}
+								}
+							}
+						}
+					}
+					return false
+				}
+				if !dominatedByCond(fn, c, guard, true) {
+					bad = fmt.Sprintf("%s: a packet is released to the reader without its number being compared equal to the expected one", w.Pos(c.Pos()))
+				}
+				// duplicate suppression: directly in Append, or through the helper's call site in Append
+				if fn == appendFn {
+					if !notSeen(c) {
+						dupBad = fmt.Sprintf("%s: a packet can be released although its number is in the acknowledged list (duplicates are delivered twice)", w.Pos(c.Pos()))
+					}
+				} else {
+					obj := fnObj(fn)
+					found := false
+					for _, c2 := range callsIn(appendFn) {
+						if sCallee(c2) == obj {
+							found = true
+							if !notSeen(c2) {
+								dupBad = fmt.Sprintf("%s: the release helper runs on a path where the already-seen test did not fail", w.Pos(c2.Pos()))
+							}
+						}
+					}
+					if !found {
+						dupBad = fmt.Sprintf("%s: packets are released from %s, which Append does not call under its already-seen test", w.Pos(c.Pos()), ssaFuncKey(fn))
+					}
 				}
 			}
 		}
-		r.Check(okDup, "R07.7", "method:(*streams/dns/util.InQueue).Append|duplicate-suppression", w.Pos(fn.Pos()), "every release is on the not-already-acknowledged edge", "a packet can be released although its number is in the acknowledged list (duplicates are delivered twice)")
+		r.Check(bad == "" && n >= 2, "R07.7", "method:(*streams/dns/util.InQueue).Append|in-order-release", w.Pos(appendFn.Pos()), fmt.Sprintf("%d release site(s), each under packet.SeqNo == NextSeqNo", n), bad+mapStr(n < 2, "expected the direct and the out-of-order release sites"))
+		r.Check(dupBad == "" && ackCall != nil, "R07.7", "method:(*streams/dns/util.InQueue).Append|duplicate-suppression", w.Pos(appendFn.Pos()), "every release is on the not-already-acknowledged edge", dupBad+mapStr(ackCall == nil, "Append never consults the acknowledged list"))
 	}
 
 	// R07.11 / R12.6: a packet parked out of order is inside the window, not yet seen, and is remembered as seen on the same path
@@ -1157,6 +1177,19 @@ func c07Parked(w *World, r *Report, rule string, fn *ssa.Function, inQ *types.Na
 				continue
 			}
 			isBoolPhi := func(v ssa.Value) bool {
+				if c, ok := v.(*ssa.Call); ok {
+					// window test extracted into a helper: bool result, argument = the packet's number
+					if sc := c.Call.StaticCallee(); sc != nil && inModule(sc) {
+						if bt, ok := c.Type().Underlying().(*types.Basic); ok && bt.Kind() == types.Bool {
+							for _, a := range c.Call.Args {
+								if fa := asFieldAddr(a); fa != nil && fieldVarOf(fa) == seqF {
+									return true
+								}
+							}
+						}
+					}
+					return false
+				}
 				ph, ok := v.(*ssa.Phi)
 				if !ok {
 					return false
